@@ -109,27 +109,70 @@ def check(ctx):
     ctx.ob("R1", "GeckoConfig::starts-as-complete-table", glob is not None and ast.unparse(glob) in ("_GeckoIdleConfig()", "_GeckoActiveConfig()"), "the root config is not an instance of a complete table", m.rel)
 
     # ---- R3 sleeper ----------------------------------------------------------------------------
-    gs_ = cfg_of(cs)
-    d = cs.node.args.args[0].arg
-    waits = [n for n in gs_.stmt_nodes() if n.suspends]
-    ctx.ob("R3", "config_sleep::single-wait", len(waits) == 1, f"config_sleep has {len(waits)} suspension points", cs.loc)
-    for w in waits:
-        c = [x for x in w.calls() if ast.unparse(x.func) == "asyncio.wait"]
-        ok = len(c) == 1
-        if ok:
-            a0 = ast.unparse(c[0].args[0]) if c[0].args else ""
-            to = [ast.unparse(k.value) for k in c[0].keywords if k.arg == "timeout"]
-            ok = a0 in ("[ConfigChange]", "{ConfigChange}", "(ConfigChange,)") and to == [d]
-        ctx.ob("R3", "config_sleep::waits-on-shared-future-with-delay", ok,
-               f"config_sleep does not `await asyncio.wait([ConfigChange], timeout={d})`: it would not wake on a mode switch or could sleep longer than asked (`{w.text()}`)", loc(cs, w.ast),
-               sample={"rule": "R3", "wait": w.text()})
-    renew = [n for n in gs_.stmt_nodes() if isinstance(n.ast, ast.Assign) and ast.unparse(n.ast.targets[0]) == "ConfigChange" and "create_future" in n.text()]
-    ok = len(renew) == 1
-    if ok:
-        facts = gs_.guard_atoms(renew[0])
-        ok = any(p and "ConfigChange is None" in t and "ConfigChange.done()" in t for t, p in facts)
-        ok = ok and bool(waits) and not any(x.suspends for x in gs_.between(renew[0], waits[0])) and gs_.reachable(renew[0], waits[0])
-    ctx.ob("R3", "config_sleep::renews-when-none-or-done", ok, "config_sleep does not renew the shared future exactly when it is None or done, right before waiting (a done future makes every later sleep return at once: busy loops)", cs.loc)
+    # the sleeper on a model (witness scenarios): module globals are the analysis's, futures are stand-ins, and
+    # asyncio.wait is intercepted - what is waited on, with which timeout, and what the shared future is afterwards
+    def sleeper(initial, delay):
+        it = Interp(repo)
+        made, waited = [], []
+
+        def mkfut(a_, k_):
+            f_ = Obj(None, {"_done": False}, name=f"future{len(made)}")
+            f_.attrs["done"] = Native(lambda a2, k2, f_=f_: f_.attrs["_done"])
+            f_.attrs["set_result"] = Native(lambda a2, k2, f_=f_: f_.attrs.__setitem__("_done", True))
+            made.append(f_)
+            return f_
+
+        def hook(it_, node, callee, args, kwargs):
+            nm = getattr(callee, "name", "")
+            if nm == "asyncio.get_running_loop" or nm == "asyncio.get_event_loop":
+                return Obj(None, {"create_future": Native(mkfut)}, name="loop")
+            if nm == "asyncio.wait":
+                waited.append((list(args[0]) if args else None, kwargs.get("timeout", "<no timeout>")))
+                return (set(), set())
+            if nm == "asyncio.wait_for":
+                waited.append(([args[0]] if args else None, kwargs.get("timeout", args[1] if len(args) > 1 else "<no timeout>")))
+                return None
+            return NotImplemented
+        it.call_hook = hook
+        init = None
+        if initial == "done":
+            init = mkfut(None, None)
+            init.attrs["_done"] = True
+            made.clear()
+        elif initial == "pending":
+            init = mkfut(None, None)
+            made.clear()
+        it.globals = {"ConfigChange": init, "GeckoConfig": Obj(idle)}
+        try:
+            it.call(cs, None, [delay])
+        except PyRaise as e:
+            return {"raises": e.what}
+        except Undecided as e:
+            raise AnalysisError(f"config_sleep: {e}")
+        return {"initial": init, "made": made, "waited": waited, "shared": it.globals.get("ConfigChange")}
+
+    for initial in ("none", "done", "pending"):
+        for delay in (7, 0, 0.0, 2.5):
+            r = sleeper(initial, delay)
+            key = f"config_sleep::{initial}::delay={delay!r}"
+            if "raises" in r:
+                ctx.ob("R3", key, False, f"config_sleep({delay!r}) raises {r['raises']} when the shared future is {initial}", cs.loc)
+                continue
+            shared = r["shared"]
+            one_wait = len(r["waited"]) == 1 and r["waited"][0][0] is not None and len(r["waited"][0][0]) == 1 and r["waited"][0][0][0] is shared
+            to = r["waited"][0][1] if r["waited"] else None
+            to_ok = (not isinstance(to, bool)) and isinstance(to, (int, float)) and to == delay
+            if initial == "pending":
+                fut_ok = shared is r["initial"] and not r["made"]
+                what = "a pending shared future (other sleepers are blocked on it) must be kept"
+            else:
+                fut_ok = len(r["made"]) == 1 and shared is r["made"][0] and shared is not r["initial"] and not shared.attrs["_done"]
+                what = "a missing / already resolved shared future must be replaced by one fresh pending future"
+            ctx.ob("R3", key, one_wait and to_ok and fut_ok,
+                   f"config_sleep({delay!r}) with the shared future {initial}: waits {[(len(w[0]) if w[0] else None, w[1]) for w in r['waited']]} (on the shared future: {one_wait}), creates {len(r['made'])} future(s) - "
+                   f"expected exactly one wait on the shared future with timeout {delay!r}; {what}",
+                   cs.loc, sample={"rule": "R3", "initial": initial, "delay": delay, "timeout": str(to), "futures_created": len(r["made"])})
+    ctx.ob("R3", "config_sleep::single-wait", len([n for n in cfg_of(cs).stmt_nodes() if n.suspends]) == 1, "config_sleep has more than one suspension point", cs.loc)
     # the shared future may be replaced only when it is None or done: a pending future that other
     # sleepers are blocked on must never be dropped or rebound (they would miss the next wake-up)
     n_w = 0
@@ -153,7 +196,6 @@ def check(ctx):
             if isinstance(n, ast.Attribute) and n.attr == "ConfigChange" and isinstance(n.ctx, ast.Store):
                 ctx.ob("R3", f"{other.rel}::writes-ConfigChange", False, f"{other.rel} writes config.ConfigChange", other.rel)
     ctx.floor("R3", "writes of the shared future in config.py functions", n_w, 1)
-    ctx.ob("R3", "config_sleep::global", any(isinstance(n, ast.Global) and "ConfigChange" in n.names for n in ast.walk(cs.node)), "config_sleep rebinds a local instead of the shared future", cs.loc)
 
     # ---- R4 who sleeps how ------------------------------------------------------------------------
     n_cs = 0
